@@ -356,6 +356,8 @@ def read_headers(sock: socket.socket) -> tuple:
         trace(line)
         if not status:
             status_info = line.split(" ", 2)
+            if len(status_info) < 2:
+                raise WebSocketException(f"Invalid status line: {line}")
             status = int(status_info[1])
             if len(status_info) > 2:
                 status_message = status_info[2]
